@@ -15,7 +15,7 @@ def _run(case):
     C = iterkit.classes()
     p = C["Probe"](case["frames"], 3)
     cache = case["cacheb"] if case["cachekind"] == "bool" else case["cachen"]
-    args = {"none": None, "own": RenderArgs(C["Probe"], C["ProbeArgs"]("a1")),
+    args = {"none": None, "own": RenderArgs(C["Probe"], C["ProbeArgs"]("a1", 0)),
             "incompatible": RenderArgs(C["Other"])}[case["args"]]
     try:
         if case["via"] == "iter":
